@@ -16,6 +16,7 @@
             && hm_view(r->Ok_0.hdrs) == hm_without(hm_view(h.hdrs), "x-request-id"@).push(("x-request-id"@, request_id@)), // @success_response_is_the_handlers_plus_exactly_this_request_id
 //@ body_start
     broadcast use ax_input_path_is_the_string;
+    let ghost remote_addr0 = remote_addr;
 //@ before "let mut response" 0
         proof {
             // the handler is handed THIS request's id and THIS route's endpoint metadata
